@@ -8,9 +8,11 @@ code -> spec : seeded random real corpora (0..8 jobs, deeper nesting, unicode, n
                observed results are recorded as NDJSON and TLC (MODE = "file") judges each one: exact / deviation / reject.
 Deviations D1 (bool/int) and D2 (lists) of the pinned tree are probed at start and switch the conformant model.
 """
+import ast
 import json
 import os
 import random
+import re
 
 from .. import core, tlc
 from ..jsonenc import from_wire, uncps, cps
@@ -234,7 +236,7 @@ def _file_mode(ctx, flags, n):
     with open(fin, "w") as f:
         for r in recs:
             f.write(json.dumps(r["rec"]) + "\n")
-    consts = {"MODE": '"file"', "MAXJOBS": 0, "NRANDOM": 0, "RANDMAX": 1, "FixedD1": tlc.lit(flags["FixedD1"]), "FixedD2": tlc.lit(flags["FixedD2"]), "FixedD3": tlc.lit(flags["FixedD3"])}
+    consts = {"MODE": '"file"', "MAXJOBS": 0, "NRANDOM": 0, "RANDMAX": 1, "NCLI": 0, "FixedD1": tlc.lit(flags["FixedD1"]), "FixedD2": tlc.lit(flags["FixedD2"]), "FixedD3": tlc.lit(flags["FixedD3"])}
     r = tlc.run("query/Schema.tla", cfg_text=tlc.cfg(consts, invariants=INVS, postcondition="Export"), workdir=ctx.work, workers=WORKERS,
                 env={"CASES_FILE": fin, "CASES_OUT": fout}, coverage=False, allow_violation=False)
     ctx.add_tlc("Schema recorded real corpora (file mode)", r)
@@ -268,6 +270,212 @@ def _file_mode(ctx, flags, n):
     ctx.sample({"recorded_corpus": big["sps"], "source": "seeded random real corpus judged by TLC (file mode)"})
 
 
+# ---- command line front: `signac schema`, `signac diff` ------------------------------------------------------
+_GROUP = re.compile(r"(\w+)\(\[(.*?)\], (\d+)\)(?:, |$)", re.S)
+
+
+def _split_top(text):
+    """split 'a, (1, 2), b' at the commas outside brackets"""
+    out, depth, cur = [], 0, ""
+    i = 0
+    while i < len(text):
+        c = text[i]
+        if c in "([{":
+            depth += 1
+        elif c in ")]}":
+            depth -= 1
+        if c == "," and depth == 0 and text[i:i + 2] == ", ":
+            out.append(cur)
+            cur = ""
+            i += 2
+            continue
+        cur += c
+        i += 1
+    out.append(cur)
+    return out
+
+
+def _parse_groups(value_string):
+    """'int([1, 2], 2), str([a], 1)' -> {type name: (n, [shown texts], ellipsis?)}"""
+    groups = {}
+    for m in _GROUP.finditer(value_string):
+        toks = _split_top(m.group(2)) if m.group(2) else []
+        groups[m.group(1)] = (int(m.group(3)), [t for t in toks if t not in ("", "...")], "..." in toks)
+    return groups
+
+
+def _parse_schema_text(out, depth):
+    """the printed schema -> ({dotted key: groups}, {hidden prefixes}) ; None if it cannot be read back"""
+    rows, hidden = {}, set()
+    if depth == 0:
+        lines = out.rstrip("\n").split("\n")
+        if lines[0] != "{" or lines[-1] != "}":
+            return None
+        for line in lines[1:-1]:
+            m = re.match(r"^ '(.*?)': '(.*)',$", line)
+            if not m:
+                return None
+            rows[m.group(1)] = _parse_groups(m.group(2))
+        return rows, hidden
+    try:
+        d = ast.literal_eval(out.replace("{...}", "'<HIDDEN>'"))
+    except (ValueError, SyntaxError):
+        return None
+
+    def walk(x, pre):
+        for k, v in x.items():
+            if isinstance(v, dict):
+                walk(v, pre + [k])
+            elif v == "<HIDDEN>":
+                hidden.add(".".join(pre + [k]))
+            else:
+                rows[".".join(pre + [k])] = _parse_groups(v)
+    walk(d, [])
+    return rows, hidden
+
+
+def _cli_argv(case, ids, n):
+    """the command line a user types for one case (spellings of the flags alternate with n)"""
+    if case["cmd"] == "schema":
+        argv = ["schema"]
+        if case["xc"]:
+            argv.append("-x" if n % 2 else "--exclude-const")
+        if case["depth"]:
+            argv += ["-t" if n % 2 else "--depth", str(case["depth"])]
+        if case["prec"]:
+            argv += ["-p" if n % 2 else "--precision", "1"]
+        if case["r"] != 5 or n % 3 == 0:
+            argv += ["-r" if n % 2 else "--max-num-range", str(case["r"])]
+        if case["kind"] == "ids":
+            argv += ["-j" if n % 2 else "--job-id"] + [ids[i - 1] for i in case["sel"]]
+    else:
+        argv = ["diff"]
+        if case["kind"] == "ids":
+            argv += [ids[i - 1] for i in case["sel"]]
+    if case["kind"] == "filter":
+        argv += ["-f", uncps(case["fk"]), json.dumps(from_wire(case["fv"]))]
+    return argv
+
+
+def _judge_cli(case, ids, sps, code, out, err):
+    """-> (kind | None, text): the printed answer of the real command against the rows / diffs TLC requires"""
+    sel = case["sel"]
+    if code != 0:
+        return "exit-status-1", "exit status 1: %s" % err.strip()[-200:]
+    if case["cmd"] == "diff":
+        blocks, cur = [], None
+        for line in out.split("\n"):
+            if re.fullmatch(r"[0-9a-f]{32}", line):
+                cur = [line, ""]
+                blocks.append(cur)
+            elif cur is not None:
+                cur[1] += line + "\n"
+            elif line.strip():
+                return "unreadable-output", "output does not start with a job id: %r" % out[:200]
+        got = {}
+        for jid, text in blocks:
+            try:
+                got[jid] = ast.literal_eval(text)
+            except (ValueError, SyntaxError):
+                return "unreadable-output", "cannot read the state point printed for %s: %r" % (jid, text[:200])
+        if set(got) != {ids[i - 1] for i in sel} or len(blocks) != len(sel):
+            return "wrong-jobs", "printed the jobs %s, selected were %s" % (sorted(got), [sps[i - 1] for i in sel])
+        for n, i in enumerate(sel):
+            want = from_wire(case["d"][n])
+            if tkey(plain(got[ids[i - 1]])) != tkey(want):
+                return "wrong-difference", "for %r printed %r, required %r" % (sps[i - 1], got[ids[i - 1]], want)
+        return None, ""
+    parsed = _parse_schema_text(out, case["depth"])
+    if parsed is None:
+        return "unreadable-output", "cannot read the printed schema back: %r" % out[:300]
+    rows, hidden = parsed
+    want = {uncps(r["k"]): {g["t"]: g for g in r["groups"]} for r in case["rows"]}
+    whidden = {uncps(h) for h in case["hidden"]}
+    if set(rows) - set(want):
+        return "key-extra", "printed keys %s, required %s" % (sorted(rows), sorted(want))
+    if set(want) - set(rows):
+        return "key-missing", "printed keys %s, required %s" % (sorted(rows), sorted(want))
+    if hidden != whidden:
+        return "nesting", "printed {...} under %s, required under %s" % (sorted(hidden), sorted(whidden))
+    for k in sorted(want):
+        if set(rows[k]) != set(want[k]):
+            return "type-groups", "key %s: printed types %s, required %s" % (k, sorted(rows[k]), sorted(want[k]))
+        for t, g in want[k].items():
+            n, shown, ell = rows[k][t]
+            texts = {uncps(x) for x in g["texts"]}
+            if n != g["n"]:
+                return "count", "key %s type %s: printed count %d, required %d" % (k, t, n, g["n"])
+            if ell != g["ell"]:
+                return "ellipsis", "key %s type %s (%d values, -r %d): %s" % (k, t, n, case["r"], "values hidden" if ell else "no values hidden")
+            if (not ell and (set(shown) != texts or len(shown) != max(len(texts), 0) and not case["prec"])) or (ell and (not set(shown) <= texts or len(shown) != case["r"])):
+                return "values", "key %s type %s: printed %s, required %s%s" % (k, t, shown, sorted(texts), " (any %d of them)" % case["r"] if ell else "")
+    return None, ""
+
+
+def _work_cli(item):
+    idx, rec, root = item
+    from ..clifront import run_cli
+    sps = [from_wire(w) for w in rec["jobs"]]
+    out = {"n": 0, "judged": 0, "keys": set(), "viol": [], "sample": None}
+    corpus = Corpus(os.path.join(root, "k%d" % idx), sps)
+    try:
+        for n, case in enumerate(rec["cases"]):
+            argv = _cli_argv(case, corpus.ids, n + idx)
+            code, so, se = run_cli(corpus.root, corpus.root, argv)
+            out["n"] += 1
+            out["keys"].add(("cli", case["cmd"], case["kind"], _shape(sps, case["sel"]), case.get("xc"), case.get("r"), case.get("prec"), case.get("depth")))
+            if case["cmd"] == "schema" and not case["judged"]:
+                continue
+            out["judged"] += 1
+            kind, text = _judge_cli(case, corpus.ids, sps, code, so, se)
+            if kind:
+                out["viol"].append(("cli:%s:%s" % (case["cmd"], kind), "$ signac %s  (project with the jobs %r; selected %r) -> %s" % (
+                    " ".join(argv), sps, [sps[i - 1] for i in case["sel"]], text), {"kind": "cli", "jobs": rec["jobs"], "case": case, "n": n + idx}))
+            if idx % 7 == 1 and n == len(rec["cases"]) // 3 and case["cmd"] == "schema":
+                out["sample"] = {"command": "signac " + " ".join(argv), "jobs": sps, "printed": so, "required_rows": [
+                    [uncps(r["k"]), [[g["t"], g["n"], [uncps(x) for x in g["texts"]]] for g in r["groups"]]] for r in case["rows"]]}
+    finally:
+        corpus.close()
+    return out
+
+
+def _cli_phase(ctx, flags):
+    fout = os.path.join(ctx.work, "cli.ndjson")
+    consts = {"MODE": '"universe"', "MAXJOBS": 0, "NRANDOM": 0, "RANDMAX": 1, "NCLI": 24 if ctx.quick else 300,
+              "FixedD1": tlc.lit(flags["FixedD1"]), "FixedD2": tlc.lit(flags["FixedD2"]), "FixedD3": tlc.lit(flags["FixedD3"])}
+    r = tlc.run("query/Schema.tla", cfg_text=tlc.cfg(consts, postcondition="ExportCli"), workdir=ctx.work, workers=WORKERS, seed=ctx.seed % 10**6,
+                env={"CLI_OUT": fout, "CASES_OUT": fout + ".unused"}, coverage=False, allow_violation=False)
+    ctx.add_tlc("Schema command-line cases (CliFaithful checked, ExportCli)", r)
+    recs = [json.loads(l) for l in open(fout)]
+    root = ctx.mkdtemp("cli")
+    n = judged = 0
+    for o in core.pmap(_work_cli, [(i, rec, root) for i, rec in enumerate(recs)], procs=WORKERS):
+        ctx.count(n=o["n"], traces=o["n"])
+        n += o["n"]
+        judged += o["judged"]
+        for k in o["keys"]:
+            ctx.count(k, n=0)
+        for sig, what, rp in o["viol"]:
+            ctx.violation(sig, what, rp)
+        if o["sample"]:
+            ctx.sample(o["sample"], cap=8)
+    # binding demonstration: a corrupted expectation (one required value text changed) must be rejected
+    rec = next(x for x in recs if len(x["jobs"]) >= 2)
+    case = next(c for c in rec["cases"] if c["cmd"] == "schema" and c["judged"] and c["rows"] and c["depth"] == 0 and not c["prec"] and c["kind"] == "none")
+    from ..clifront import run_cli
+    sps = [from_wire(w) for w in rec["jobs"]]
+    corpus = Corpus(os.path.join(root, "selftest"), sps)
+    code, so, se = run_cli(corpus.root, corpus.root, _cli_argv(case, corpus.ids, 1))
+    bad = json.loads(json.dumps(case))
+    bad["rows"][0]["groups"][0]["texts"][0] = cps("corrupted")
+    st = {"cli_unchanged_case_accepted": _judge_cli(case, corpus.ids, sps, code, so, se)[0] is None,
+          "cli_corrupted_expected_value_detected": _judge_cli(bad, corpus.ids, sps, code, so, se)[0] is not None}
+    corpus.close()
+    ctx.cov["command_line"] = {"corpora": len(recs), "commands_run": n, "commands_judged": judged,
+                               "not_judged": "selections on which the conformant model deviates (D2) and -t DEPTH with a key that is scalar in one job and a mapping in another"}
+    return st
+
+
 # ---------------------------------------------------------------------------------------------------------
 def _tla_to_py(v):
     """a JsonValue record as TLC prints it (parsed by tlaparse) -> python value"""
@@ -294,7 +502,7 @@ def run(ctx):
     ctx.cov["deviation_flags_probed"] = flags
     # ---- spec -> code ------------------------------------------------------------------------------
     out = os.path.join(ctx.work, "cases.ndjson")
-    consts = {"MODE": '"universe"', "MAXJOBS": 3, "NRANDOM": 0 if ctx.quick else 2500, "RANDMAX": 8,
+    consts = {"MODE": '"universe"', "MAXJOBS": 3, "NRANDOM": 0 if ctx.quick else 2500, "RANDMAX": 8, "NCLI": 0,
               "FixedD1": tlc.lit(flags["FixedD1"]), "FixedD2": tlc.lit(flags["FixedD2"]), "FixedD3": tlc.lit(flags["FixedD3"])}
     r = tlc.run("query/Schema.tla", cfg_text=tlc.cfg(consts, invariants=INVS, postcondition="Export"), workdir=ctx.work, workers=WORKERS,
                 seed=ctx.seed % 10**6, env={"CASES_OUT": out}, coverage=False, allow_violation=False, heap="8g")
@@ -356,7 +564,9 @@ def run(ctx):
         "type_confusion_detected": _judge_schema(sps, case, ("ok", wk, {(k, t, ("float", v[1] + ".0") if v[0] == "int" else v) for k, t, v in wt}), "subset") != []
                                    or not any(v[0] == "int" for _, _, v in wt),
     }
-    if not all(ctx.cov["binding_selftest"].values()):
+    # ---- the command line front (signac schema / signac diff) ------------------------------------------------
+    ctx.cov["binding_selftest"].update(_cli_phase(ctx, flags))
+    if not all(ctx.cov["binding_selftest"].values()) and not any(v.signature.startswith("cli:") for v in ctx.violations):
         raise core.MachineryError("binding self-test failed: %r" % ctx.cov["binding_selftest"])
     ctx.cov["exhaustive"] = "all corpora of <= 3 jobs over the 22-state-point universe x all selections x exclude_const"
 
@@ -366,6 +576,17 @@ def replay(ctx, data):
     c = Corpus(os.path.join(ctx.work, "replay"), sps)
     case = data["case"]
     print("state points:", sps)
+    if data["kind"] == "cli":
+        from ..clifront import run_cli
+        argv = _cli_argv(case, c.ids, data["n"])
+        code, so, se = run_cli(c.root, c.root, argv)
+        print("$ signac " + " ".join(argv))
+        print(so + se, end="")
+        print("exit status", code)
+        kind, text = _judge_cli(case, c.ids, sps, code, so, se)
+        c.close()
+        print("VIOLATED [cli:%s:%s]: %s" % (case["cmd"], kind, text) if kind else "the printed answer is the required one")
+        return 1 if kind else 0
     if data["kind"] == "schema":
         real = c.schema(case["sel"], case["xc"], use_none=data["how"] == "none", spelling=int(data["how"][-1]) if data["how"][-1].isdigit() else 0)
         v = _judge_schema(sps, case, real, data["how"])
